@@ -134,7 +134,25 @@ func convertConfigs(configs []config.CompressConfig) []CompressOption {
 
 // Reset reset default compress services
 func Reset(configs []config.CompressConfig) {
-	defaultCompressSrvList.Reset(convertConfigs(configs))
+	opts := convertConfigs(configs)
+	// 如果配置中已无bestCompression，则恢复为默认的压缩级别（与启动时一致），
+	// 避免之前配置的压缩级别残留
+	hasBestCompression := false
+	for _, opt := range opts {
+		if opt.Name == BestCompression {
+			hasBestCompression = true
+		}
+	}
+	if !hasBestCompression {
+		opts = append(opts, CompressOption{
+			Name: BestCompression,
+			Levels: map[string]int{
+				"br":   -1,
+				"gzip": gzip.BestCompression,
+			},
+		})
+	}
+	defaultCompressSrvList.Reset(opts)
 }
 
 // Get get default compress service
